@@ -90,4 +90,11 @@ TEXT = {
         "design_ref": "DESIGN.md section 2, C18",
         "level_note": "Trusted base: hlref news decoders, hlsim, rapid. Histories ~30 steps, depth <= 3, bodies <= 60000 bytes.",
     },
+    "C12": {
+        "engine": "E1 bubble world",
+        "technique": "model-based stateful property testing (rapid state machine): every client's received chat traffic after each step vs a reference chat/membership model with independently implemented text formatting",
+        "level_text": "Generated histories of chat actions by clients with differing privileges; at quiescence after every step the exact multiset of chat transactions each connected client received is compared with the model (who, how many, which text), so a wrong audience, duplicate or missing delivery, wrong truncation or padding is visible.",
+        "design_ref": "DESIGN.md section 2, C12",
+        "level_note": "Trusted base: reference model in harness/props/c12_test.go (format from the protocol document), hlsim, synctest quiescence.",
+    },
 }
